@@ -38,6 +38,13 @@ def check(ctx):
         ctx.analysed(p.funcs[fid])
 
     # ---- R1 exactly one answer ---------------------------------------------------
+    # the word `go` reaches the handler that starts the search thread
+    from rules.ucitab import uci_dispatch
+    loop_, disp = uci_dispatch(p)
+    creators = {short(c_.name) for c_, n_, e_ in entries}
+    ctx.ob('C05.R1.go-dispatch', 'go', disp.get('go') in creators,
+           'the command word `go` is dispatched to the handler that constructs the search thread (go -> %s; thread made by %s)'
+           % (disp.get('go'), sorted(creators)), site=loop_.loc())
     sites = string_literal_sites(p, 'bestmove ')
     ctx.floor('C05.R1.sites', len(sites), 2, '"bestmove " print sites')
     site_funcs = {}
